@@ -75,9 +75,10 @@ func (f filterConf) slotPass(key string) bool {
 	if len(f.slots) == 0 {
 		return true
 	}
-	s := strconv.Itoa(ref.Slot([]byte(key)))
+	s := ref.Slot([]byte(key))
 	for _, x := range f.slots {
-		if x == s {
+		// the list holds numbers: "007" and "+12" name slots 7 and 12 (the option check accepts whatever parses)
+		if n, err := strconv.Atoi(x); err == nil && n == s {
 			return true
 		}
 	}
@@ -116,6 +117,14 @@ func drawFilterConf(t *rapid.T, withSlots bool, keys []string) filterConf {
 		}
 		if len(f.slots) == 0 {
 			f.slots = []string{"0"}
+		}
+		for i := range f.slots {
+			switch rapid.IntRange(0, 5).Draw(t, "slotSpelling") {
+			case 4:
+				f.slots[i] = "0" + f.slots[i]
+			case 5:
+				f.slots[i] = "+" + f.slots[i]
+			}
 		}
 	}
 	f.lua = rapid.IntRange(0, 3).Draw(t, "filterlua") == 0
